@@ -866,7 +866,7 @@ pub fn run(cfg: &Cfg) -> i32 {
         println!("INCONCLUSIVE: {e}");
         return 2;
     }
-    if let Some(path) = &cfg.replay {
+    if let Some(path) = cfg.replay.as_ref().filter(|p| replay_case_is(p, |c| c["case"].is_object())) {
         let v: Value = serde_json::from_str(&std::fs::read_to_string(path).expect("replay file")).expect("json");
         let c: FCase = serde_json::from_value(v["case"]["case"].clone()).expect("case");
         let kname = v["case"]["kind"].as_str().unwrap_or("bdd").to_string();
